@@ -2,7 +2,6 @@ package main
 
 import (
 	"fmt"
-	"sort"
 	"strings"
 )
 
@@ -112,6 +111,34 @@ func genC01(c *Ctx) {
 			}
 		}
 	}
+	// (c) leaves that are related spellings of one or two base terms (same id with / without '+', '-only',
+	// with / without an exception, re-cased), so that one expression holds terms the allowed list must tell apart
+	fam := 250
+	if c.thorough() {
+		fam = 4000
+	}
+	for k := 0; k < fam; k++ {
+		n := 2 + c.rng.Intn(4)
+		sh := randTree(c.rng, n)
+		bases := [][]string{related(c.rng.Pick(leafPool)), related(c.rng.Pick(leafPool))}
+		var lab []string
+		for j := 0; j < n; j++ {
+			b := bases[c.rng.Intn(4)/3]
+			lab = append(lab, b[c.rng.Intn(len(b))])
+		}
+		i := 0
+		t := label(sh, lab, &i)
+		cand := append(append([]string{}, bases[0]...), bases[1]...)
+		cand = c.rng.Shuffle(uniq(cand))
+		if len(cand) > 4 {
+			cand = cand[:4]
+		}
+		expr := t.render(c.rng.Intn(3), c.rng)
+		c.count("related_leaf_trees")
+		for _, A := range subsets(cand) {
+			c.checkBoolean(t, expr, A)
+		}
+	}
 	deep := 150
 	if c.thorough() {
 		deep = 3000
@@ -187,6 +214,8 @@ func term(id string, plus bool, exc string) string {
 	}
 	return s
 }
+
+func stripOrLater(x string) string { return strings.TrimSuffix(x, "-or-later") }
 
 func genC02(c *Ctx) {
 	P := tablePos()
@@ -270,6 +299,50 @@ func genC02(c *Ctx) {
 				}
 			}
 			check(x, true, "", "MIT", true, "")
+		}
+	}
+	// every listed id against the listed ids that share its base (X, X-only, X-or-later): inside or outside the table
+	stripSfx := func(x string) string { return strings.TrimSuffix(strings.TrimSuffix(x, "-only"), "-or-later") }
+	groups := map[string][]string{}
+	for _, x := range append(append([]string{}, tActive...), tDeprec...) {
+		if isIDWord(x) {
+			groups[stripSfx(x)] = append(groups[stripSfx(x)], x)
+		}
+	}
+	var gkeys []string
+	for k, g := range groups {
+		if len(g) > 1 {
+			gkeys = append(gkeys, k)
+		}
+	}
+	sortStrings(gkeys)
+	for _, k := range gkeys {
+		for _, x := range groups[k] {
+			for _, y := range groups[k] {
+				for m := 0; m < 4; m++ {
+					a, b := term(x, m&1 == 1, ""), term(y, m&2 == 2, "")
+					r, rr := c.S(a, []string{b}), c.S(b, []string{a})
+					if r == unknown || rr == unknown {
+						continue
+					}
+					c.count("same_base_pairs")
+					if r != rr {
+						c.fail("Satisfies", map[string]interface{}{"expression": a, "allowed": []string{b}, "swapped": true}, r+" vs "+rr, "equal", "symmetry of the matching relation")
+					}
+					// outside the family table only the same id (with '-or-later' read as '+') matches
+					_, inx := P[stripOrLater(x)]
+					_, iny := P[stripOrLater(y)]
+					if !inx && !iny {
+						exp := "F"
+						if stripOrLater(x) == stripOrLater(y) {
+							exp = "T"
+						}
+						if r != exp && r != "E" {
+							c.fail("Satisfies", map[string]interface{}{"expression": a, "allowed": []string{b}}, r, exp, "ids outside LicenseRanges() match only the same id ('-or-later' counting as '+')")
+						}
+					}
+				}
+			}
 		}
 	}
 	// reflexivity + never license~ref, over every listed license id and a few refs
@@ -440,6 +513,22 @@ func genC03(c *Ctx) {
 		bad("Satisfies", map[string]interface{}{"expression": "MIT", "allowed": []string{"MIT", s}}, c.S("MIT", []string{"MIT", s}))
 		bad("ValidateLicenses", []string{"MIT", s, s}, c.L([]string{"MIT", s, s}))
 	}
+	// the cases of the other properties (valid terms, pairs, trees), under the same oracle
+	for _, p := range []string{"C01", "C02", "C06", "C07", "C15"} {
+		sub := newCtx(p, "quick", c.seed)
+		sub.memo = c.memo
+		sub.pending, sub.pendset = c.pending, c.pendset
+		sub.rng = &SM64{c.seed}
+		gens[p](sub)
+		c.pending, c.pendset = sub.pending, sub.pendset
+	}
+	if c.final {
+		for l, r := range c.memo {
+			if strings.Contains(r, "PANIC") {
+				c.fail("protocol line", l, "panic", "a result or an error value", "recover() around the call")
+			}
+		}
+	}
 	bad("Satisfies", map[string]interface{}{"expression": "MIT", "allowed": nil}, c.S("MIT", nil))
 	bad("Satisfies", map[string]interface{}{"expression": "", "allowed": nil}, c.S("", nil))
 	bad("ValidateLicenses", []string{}, c.L(nil))
@@ -471,6 +560,8 @@ var c04pool = []tagged{
 	{"MIT AND ISC", 1}, {"(MIT OR ISC)", 1}, {"MIT OR (ISC AND Zlib)", 1},
 	{"", 2}, {" ", 2}, {"FOO", 2}, {"MIT AND", 2}, {"(", 2}, {"MIT ISC", 2}, {"MIT +", 2}, {"MIT WITH", 2}, {"Bison-exception-2.2", 2},
 	{"MIT AND FOO", 2}, {"DocumentRef-a", 2}, {"mit and isc", 2},
+	{"MIT\n", 2}, {"\tMIT", 2}, {"MIT\r\n", 2}, {"\t(MIT OR ISC)\t", 2}, {"MIT\tAND ISC", 2}, {"\n", 2}, {"MIT ", 0}, {"  (MIT)", 0},
+	{"Classpath-exception-2.0", 2}, {"389-exception", 2}, {"mit", 0}, {"LicenseRef-", 2}, {"MIT OR", 2},
 }
 
 func genC04(c *Ctx) {
@@ -747,12 +838,9 @@ func respellEntry(r *SM64, a string) string {
 	case 3:
 		if !strings.Contains(a, "Ref-") {
 			if i := strings.Index(a, " WITH "); i >= 0 {
-				return caseMix(r, a[:i]) + " WITH " + caseMix(r, a[i+6:])
+				return mixID(r, a[:i]) + " WITH " + caseMix(r, a[i+6:])
 			}
-			if strings.HasSuffix(a, "-only") || strings.HasSuffix(a, "-or-later") {
-				return a
-			}
-			return caseMix(r, a)
+			return mixID(r, a)
 		}
 	}
 	return "((" + a + "))"
@@ -763,15 +851,16 @@ func genC07(c *Ctx) {
 	if c.thorough() {
 		N = 4
 	}
-	var exprs []struct {
+	type ex struct {
 		t *Tree
 		s string
 	}
+	var exprs []ex
 	for n := 1; n <= N; n++ {
 		for _, sh := range allTrees(n) {
-			K := 1
+			K := 2
 			if c.thorough() {
-				K = 3
+				K = 4
 			}
 			for k := 0; k < K; k++ {
 				var lab []string
@@ -780,64 +869,108 @@ func genC07(c *Ctx) {
 				}
 				i := 0
 				t := label(sh, lab, &i)
-				exprs = append(exprs, struct {
-					t *Tree
-					s string
-				}{t, t.render(0, c.rng)})
+				exprs = append(exprs, ex{t, t.render(0, c.rng)})
 			}
 		}
 	}
-	for _, e := range exprs {
+	// single terms of every kind: the allowed list is what varies
+	for _, l := range leafPool {
+		exprs = append(exprs, ex{leaf(l), l})
+	}
+	fillers := []string{"Zlib", "0BSD", "ISC", "BSD-2-Clause", "Unlicense", "WTFPL", "X11", "NCSA", "PostgreSQL", "Beerware", "Artistic-2.0",
+		"BSL-1.0", "CC0-1.0", "EPL-2.0", "MPL-2.0", "LGPL-3.0-only", "OFL-1.1", "Python-2.0", "Ruby", "Vim", "curl", "zlib", "LicenseRef-q"}
+	for ei, e := range exprs {
 		var cand []string
 		for _, l := range uniq(e.t.leaves()) {
 			rel := related(l)
 			cand = append(cand, rel[c.rng.Intn(len(rel))], rel[c.rng.Intn(len(rel))])
+			if ei%3 == 0 {
+				// siblings of the same version: X-only beside X-or-later / X WITH e / X+
+				cand = append(cand, rel[c.rng.Intn(len(rel))], rel[c.rng.Intn(len(rel))])
+			}
 		}
-		cand = uniq(cand)
-		cand = c.rng.Shuffle(cand)
+		cand = c.rng.Shuffle(uniq(cand))
 		k := 2 + c.rng.Intn(3)
 		if len(cand) > k {
 			cand = cand[:k]
 		}
-		base := c.S(e.s, cand)
-		c.count("expression_list_pairs")
-		cmp := func(what string, A2 []string) {
-			r := c.S(e.s, A2)
-			if base == unknown || r == unknown {
-				return
+		var lists [][]string
+		lists = append(lists, cand)
+		// a long list (more than 16 entries), unsorted, with repeats
+		long := append([]string{}, cand...)
+		for len(long) < 18+c.rng.Intn(6) {
+			long = append(long, c.rng.Pick(fillers))
+		}
+		if ei%4 == 0 || c.thorough() {
+			lists = append(lists, c.rng.Shuffle(long))
+		}
+		for _, A := range lists {
+			valid := true
+			for _, a := range A {
+				if c.V(a) != "1" {
+					valid = false
+				}
 			}
-			if r != base {
-				c.fail("Satisfies", map[string]interface{}{"expression": e.s, "allowed": cand, "allowed_variant": A2, "relation": what}, base+" vs "+r, "equal", "the verdict depends only on the set denoted by the allowed list")
-			}
-		}
-		for _, p := range perms(cand) {
-			cmp("permutation", p)
-		}
-		for i := range cand {
-			d := append(append([]string{}, cand...), cand[i])
-			cmp("duplicate", d)
-			d2 := append([]string{cand[i]}, cand...)
-			cmp("duplicate", d2)
-			rs := append([]string{}, cand...)
-			rs[i] = respellEntry(c.rng, cand[i])
-			cmp("respelling", rs)
-		}
-		// monotone
-		for _, b := range append(related(c.rng.Pick(e.t.leaves())), c.rng.Pick(leafPool), "Zlib") {
-			ext := append(append([]string{}, cand...), b)
-			if c.V(b) != "1" {
+			base := c.S(e.s, A)
+			if !valid {
 				continue
 			}
-			r := c.S(e.s, ext)
-			if base == "T" && r != unknown && r != "T" {
-				c.fail("Satisfies", map[string]interface{}{"expression": e.s, "allowed": cand, "allowed_extended": ext}, "T then "+r, "T", "adding valid entries never turns satisfied into not satisfied")
+			c.count("expression_list_pairs")
+			cmp := func(what string, A2 []string) {
+				r := c.S(e.s, A2)
+				if base == unknown || r == unknown {
+					return
+				}
+				if r != base {
+					c.fail("Satisfies", map[string]interface{}{"expression": e.s, "allowed": A, "allowed_variant": A2, "relation": what}, base+" vs "+r, "equal", "the verdict depends only on the set denoted by the allowed list")
+				}
 			}
-			ext2 := append([]string{b}, cand...)
-			r2 := c.S(e.s, ext2)
-			if base == "T" && r2 != unknown && r2 != "T" {
-				c.fail("Satisfies", map[string]interface{}{"expression": e.s, "allowed": cand, "allowed_extended": ext2}, "T then "+r2, "T", "adding valid entries never turns satisfied into not satisfied")
+			if len(A) <= 4 {
+				for _, p := range perms(A) {
+					cmp("permutation", p)
+				}
+			} else {
+				for q := 0; q < 4; q++ {
+					cmp("permutation", c.rng.Shuffle(A))
+				}
+				rev := append([]string{}, A...)
+				for i, j := 0, len(rev)-1; i < j; i, j = i+1, j-1 {
+					rev[i], rev[j] = rev[j], rev[i]
+				}
+				cmp("permutation", rev)
+			}
+			for i := range A {
+				if len(A) > 5 && i > 2 {
+					break
+				}
+				d := append(append([]string{}, A...), A[i])
+				cmp("duplicate", d)
+				d2 := append([]string{A[i]}, A...)
+				cmp("duplicate", d2)
+				for q := 0; q < 3; q++ {
+					rs := append([]string{}, A...)
+					rs[i] = respellEntry(c.rng, A[i])
+					cmp("respelling", rs)
+				}
+				// drop one entry, then add it back: monotone
+				less := append(append([]string{}, A[:i]...), A[i+1:]...)
+				if len(less) > 0 {
+					if r := c.S(e.s, less); r == "T" && base != unknown && base != "T" {
+						c.fail("Satisfies", map[string]interface{}{"expression": e.s, "allowed": less, "allowed_extended": A}, "T then "+base, "T", "adding valid entries never turns satisfied into not satisfied")
+					}
+				}
+			}
+			for _, b := range append(related(c.rng.Pick(e.t.leaves())), c.rng.Pick(leafPool), "Zlib") {
+				if c.V(b) != "1" {
+					continue
+				}
+				for _, ext := range [][]string{append(append([]string{}, A...), b), append([]string{b}, A...)} {
+					r := c.S(e.s, ext)
+					if base == "T" && r != unknown && r != "T" {
+						c.fail("Satisfies", map[string]interface{}{"expression": e.s, "allowed": A, "allowed_extended": ext}, "T then "+r, "T", "adding valid entries never turns satisfied into not satisfied")
+					}
+				}
 			}
 		}
 	}
-	_ = sort.Strings
 }
